@@ -166,41 +166,73 @@ def r1_r2(ctx, r1, r2):
                           okdesc="min version set only in applyTls12Floor")
     if nset < 3:
         raise AnalysisBroken("only %d verify/protocol configuration calls seen" % nset)
-    # the floor helper clamps on both arms
+    # the floor helper: every value it hands to OpenSSL is >= TLS 1.2 for EVERY configured minimum (exact evaluation of the
+    # argument expression over the integer parameter), every path sets a minimum, and a configured value OpenSSL may reject
+    # (anything that is not a constant protocol version) has its result tested with a constant floor on the failure path
+    import copy
+    from ..finite import compile_expr, NotPure, dominating_facts
     af = fn(ctx, "applyTls12Floor")
     setv = ssl_calls(af, ("SSL_CTX_set_min_proto_version",))
     r2.instance()
-    if len(setv) != 1:
-        r2.fail(af, None, "floor helper", "applyTls12Floor does not call SSL_CTX_set_min_proto_version exactly once")
-    else:
-        n = setv[0][0].node
-        v = strip_casts(n["args"][2]) if n.get("callee") == "SSL_CTX_ctrl" and len(n["args"]) > 2 else strip_casts(n["args"][1])
-        init = v
-        if v.get("k") == "var":
-            for e in af.stmts():
-                if e.node.get("k") == "decl":
-                    for dv in e.node["vars"]:
-                        if dv["d"] == v.get("d"):
-                            init = strip_casts(dv.get("init"))
-        ok = False
-        if init is not None and init.get("k") == "cond":
-            c = strip_casts(init["c"])
-            t, fl = strip_casts(init["t"]), strip_casts(init["f"])
-            if c.get("k") == "bin" and c["op"] in ("<", "<="):
-                x, k = strip_casts(c["lhs"]), const_value(c["rhs"])
-                if k is not None and k >= TLS12 and const_value(t) is not None and const_value(t) >= TLS12 and show(fl) == show(x):
-                    ok = True
-            if c.get("k") == "bin" and c["op"] in (">", ">="):
-                x, k = strip_casts(c["lhs"]), const_value(c["rhs"])
-                if k is not None and ((c["op"] == ">=" and k >= TLS12) or (c["op"] == ">" and k >= TLS12 - 1)) and show(t) == show(x) and const_value(fl) is not None and const_value(fl) >= TLS12:
-                    ok = True
-        if init is not None and init.get("k") == "call" and init.get("callee") == "std::max":
-            ks = [const_value(a) for a in init["args"][:2]]
-            ok = any(k is not None and k >= TLS12 for k in ks)
-        if init is not None and const_value(init) is not None and const_value(init) >= TLS12:
-            ok = True
-        r2.expect(ok, af, setv[0][0], "floor below TLS 1.2", "the value given to SSL_CTX_set_min_proto_version (`%s`) is not clamped to at least TLS 1.2 (0x0303) on every arm" % show(init)[:80],
-                  okdesc="applyTls12Floor: min version = max(configured, TLS1_2_VERSION)")
+    if not setv:
+        r2.fail(af, None, "floor helper", "applyTls12Floor no longer calls SSL_CTX_set_min_proto_version")
+        return
+    ints = [p_ for p_ in af.params if p_["t"] in ("int", "long", "unsigned int", "unsigned long", "short", "unsigned short")]
+    if len(ints) != 1:
+        raise AnalysisBroken("applyTls12Floor: expected one integer parameter (the configured minimum), found %d" % len(ints))
+    pname = ints[0]["n"]
+    inits = {}
+    for e in af.stmts():
+        if e.node.get("k") == "decl":
+            for dv in e.node["vars"]:
+                if dv.get("init") is not None:
+                    inits[dv["d"]] = dv["init"]
+
+    def inline(n, depth=0):
+        if isinstance(n, list):
+            return [inline(x, depth) for x in n]
+        if not isinstance(n, dict):
+            return n
+        if n.get("k") == "var" and n.get("d") in inits and depth < 8:
+            return inline(inits[n["d"]], depth + 1)
+        return {k: inline(v, depth) if isinstance(v, (dict, list)) else v for k, v in n.items()}
+    DOMAIN = sorted(set(list(range(-3, 0x0310)) + [0x0400, 0x7fff, 0xfeff, 0xffff, 0x10000, 2 ** 31 - 1, -2 ** 31]))
+    robust, fragile = [], []
+    for (e, nm) in setv:
+        n = e.node
+        v = n["args"][2] if n.get("callee") == "SSL_CTX_ctrl" and len(n["args"]) > 2 else n["args"][1]
+        try:
+            fnv, _t, _code = compile_expr(inline(strip_casts(v)), [pname])
+        except NotPure as ex:
+            raise AnalysisBroken("applyTls12Floor: the version argument `%s` is not a pure function of %s (%s)" % (show(v)[:60], pname, ex))
+        dom = list(DOMAIN)
+        for (c, t) in dominating_facts(af, e):
+            try:
+                fc, _t2, _c2 = compile_expr(inline(strip_casts(c)), [pname])
+            except NotPure:
+                continue        # a fact about something else (an earlier call's result): ignoring it only widens the domain
+            dom = [x for x in dom if bool(fc(x)) == t]
+        vals = {x: fnv(x) for x in dom}
+        bad = [x for x, y in vals.items() if y < TLS12]
+        r2.instance()
+        r2.expect(not bad, af, e, "floor below TLS 1.2", "SSL_CTX_set_min_proto_version receives `%s`, which is below TLS 1.2 (0x0303) for %s = %s%s: TLS 1.0/1.1 (or 'no minimum') becomes negotiable" % (
+            show(v)[:60], pname, ", ".join(hex(x) if x >= 0 else str(x) for x in bad[:4]), " …" if len(bad) > 4 else ""),
+            okdesc="min version argument >= TLS 1.2 on all %d values of the configured minimum" % len(dom))
+        (robust if set(vals.values()) <= {0x0303, 0x0304} else fragile).append(e)
+    # every path installs a floor OpenSSL cannot refuse or ignore: a call whose value is TLS 1.2 / 1.3 whatever was configured
+    r2.instance()
+    w = search(af, ("entry",), "exit", stop=lambda x: any(x is e for e in robust), eh=False)
+    r2.expect(w is None, af, None, "floor skipped", "applyTls12Floor can return without a call that sets a constant TLS 1.2/1.3 minimum (%s)" % (witness_str(af, w) if w else ""),
+              okdesc="every path sets a constant minimum")
+    # a configured value is only ever applied ON TOP of that floor: OpenSSL rejects what is not a protocol version (0x0305 …,
+    # returns 0) and accepts-but-ignores the DTLS constants on a TLS context (returns 1) — in both cases the context keeps the
+    # minimum it had, so the constant floor must already be in place (testing the result alone does not cover the second case)
+    for e in fragile:
+        r2.instance()
+        r2.expect(any(elem_dominates(af, rb, e) for rb in robust), af, e, "floor not enforced when the configured minimum is rejected",
+                  "SSL_CTX_set_min_proto_version is given a %s-derived value with no constant TLS 1.2 floor set before it: OpenSSL refuses values that are not protocol versions (0x0305, 0x0400 …) and ignores "
+                  "DTLS constants, and then leaves the context's minimum unchanged — with no system default that is 0, no floor at all" % pname,
+                  okdesc="configured minimum applied on top of a constant floor")
 
 
 def r3(ctx, r):
@@ -633,6 +665,78 @@ def r9(ctx, r):
         raise AnalysisBroken("HttpClient: no return of a cached session id found (connection cache gone?)")
 
 
+HS = "iora::network::HttpServer"
+HSFILE = "iora/network/http_server.hpp"
+
+
+def r10(ctx, r):
+    """HttpServer: once TLS was enabled it stays enabled (the configuration is written only by enableTls), a server with a TLS
+    configuration listens with TlsMode::Server, and every field of the configuration reaches the transport's serverTls."""
+    fb = ctx.fb()
+    fld = HS + "::_tlsConfig"
+    nw = 0
+    for g in fb.functions:
+        if not g.ok or not g.file.endswith(HSFILE):
+            continue
+        for (e, n, k) in common.field_writes(g, fld):
+            nw += 1
+            r.instance()
+            owner = g.enclosing.name if g.kind == "lambda" and g.enclosing is not None else g.name
+            r.expect(owner == HS + "::enableTls", g, e, "TLS configuration dropped", "%s writes HttpServer::_tlsConfig (`%s`): after it the next start() derives a plain-text listener without client-certificate "
+                     "check from has_value()==false although the application enabled TLS" % (short(g.name), show(fb_stmt(g, e))[:60]), okdesc="_tlsConfig written by enableTls only")
+    if nw < 1:
+        raise AnalysisBroken("HttpServer::_tlsConfig: no write found (enableTls gone?)")
+    st = fb.func(HS + "::start", file_suffix=HSFILE)
+    # listener mode
+    lis = [e for e in st.stmts() if e.node.get("k") == "mcall" and last(e.node.get("callee", "")) == "addListener"]
+    if not lis:
+        raise AnalysisBroken("HttpServer::start: addListener call not found")
+    inits = {}
+    for e in st.stmts():
+        if e.node.get("k") == "decl":
+            for dv in e.node["vars"]:
+                if dv.get("init") is not None:
+                    inits[dv["d"]] = dv["init"]
+    for e in lis:
+        r.instance()
+        arg = next((a for a in e.node["args"] if "TlsMode" in (a.get("t") or "")), None)
+        if arg is None:
+            r.fail(st, e, "listener without TLS mode", "addListener is called without a TLS mode argument: the listener takes the transport default")
+            continue
+        v = strip_casts(arg)
+        if v.get("k") == "var" and v.get("d") in inits:
+            v = strip_casts(inits[v["d"]])
+        ok = False
+        if v.get("k") == "cond":
+            c = strip_casts(v["c"])
+            has = c.get("k") == "mcall" and last(c.get("callee", "")) in ("has_value", "operator bool") and field_of(c.get("obj")) == fld
+            t, f_ = strip_casts(v["t"]), strip_casts(v["f"])
+            ok = has and t.get("k") == "enum" and t["n"].endswith("TlsMode::Server")
+        elif v.get("k") == "enum":
+            ok = v["n"].endswith("TlsMode::Server")
+        r.expect(ok, st, e, "listener mode not derived from the TLS configuration", "the listener's TLS mode is `%s`: with a TLS configuration present the listener must be TlsMode::Server" % show(v)[:70],
+                 okdesc="listener mode = _tlsConfig.has_value() ? Server : None")
+    # every field forwarded, inside the has_value() branch, with enabled = true and defaultMode = Server
+    rec = fb.record(HS + "::TlsConfig")
+    used = {last(n["n"]) for n in st.nodes.values() if n.get("k") == "member" and n["n"].startswith(HS + "::TlsConfig::")}
+    for f_ in rec["fields"]:
+        r.instance()
+        r.expect(f_["n"] in used, st, None, "server TlsConfig::%s ignored" % f_["n"], "HttpServer::TlsConfig::%s is never read where the transport's server TLS configuration is built" % f_["n"],
+                 okdesc="TlsConfig::%s forwarded to serverTls" % f_["n"])
+    en = [(e, n) for (e, n, k) in common.field_writes(st, "iora::network::TransportConfig::TlsConfig::enabled")]
+    r.instance()
+    r.expect(any(const_value(common.assigned_value(st, n) or {}) == 1 for (e, n) in en), st, None, "serverTls.enabled not set", "start() does not set serverTls.enabled = true when TLS is configured",
+             okdesc="serverTls.enabled = true")
+    vp = [(e, n) for (e, n, k) in common.field_writes(st, "iora::network::TransportConfig::TlsConfig::verifyPeer")]
+    r.instance()
+    r.expect(any("requireClientCert" in show(common.assigned_value(st, n) or {}) for (e, n) in vp), st, None, "client-certificate requirement not forwarded",
+             "serverTls.verifyPeer is not taken from TlsConfig::requireClientCert", okdesc="serverTls.verifyPeer = requireClientCert")
+
+
+def fb_stmt(g, e):
+    return e.node
+
+
 def run(ctx, ck):
     r1 = ck.rule("C07-R1", "peer verification is switched on when configured and never lowered", "A10 API protocol + A5")
     r2 = ck.rule("C07-R2", "TLS 1.2 floor on every context", "A10 + A5")
@@ -647,4 +751,5 @@ def run(ctx, ck):
     ck.run_rule("C07-R6", "no clear-text application bytes on a TLS session (= C01-R5)", "A5", lambda r: r6(ctx, r))
     ck.run_rule("C07-R7", "the peer's name is checked", "A10 + dataflow", lambda r: r7(ctx, r))
     ck.run_rule("C07-R8", "the HTTP client forwards its TLS configuration", "A10 closed set", lambda r: r8(ctx, r))
+    ck.run_rule("C07-R10", "HTTP server: TLS configuration is never dropped, selects a TLS listener and is forwarded whole", "A3 who-may-write + A10 closed set", lambda r: r10(ctx, r))
     ck.run_rule("C07-R9", "a cached client connection is reused only for the TLS mode it was opened with", "dataflow: URL fields deciding the TLS mode vs. fields selecting the cached entry", lambda r: r9(ctx, r))
